@@ -510,7 +510,7 @@ def run_shard(ctx):
     ctx.sample({"kind": "pair", "pat": "a\\*[", "name": "a*["})
     ctx.count("pairs_exhaustive", npairs)
     # 2. random longer pairs (name derived from the pattern so that matches are frequent)
-    n_rand = 20000 if ctx.tier == "quick" else 400000
+    n_rand = 60000 if ctx.tier == "quick" else 400000
     for _ in range(n_rand):
         pat = "".join(rng.choice(ALPHA + "ab") for _ in range(rng.randint(5, 12)))
         if rng.random() < 0.6:
@@ -527,7 +527,7 @@ def run_shard(ctx):
     info = mi._create_regex.cache_info()
     ctx.count("lru_evictions_possible", int(info.misses > info.maxsize))
     # 4. inventories x filter quadruples
-    n_f = 1500 if ctx.tier == "quick" else 40000
+    n_f = 5000 if ctx.tier == "quick" else 40000
     for i in range(n_f):
         invs = gen_inventories(rng)
         pool_k = list(invs)
@@ -544,7 +544,7 @@ def run_shard(ctx):
         if ctx.out_of_time():
             break
     # 5. documents with inv: links, 6. CLI
-    n_d = 25 if ctx.tier == "quick" else 600
+    n_d = 60 if ctx.tier == "quick" else 600
     for i in range(n_d):
         case = gen_doc(rng)
         if i % 4 == 1:
